@@ -403,6 +403,18 @@ func (c *Cluster) refreshHosts() {
 	}
 }
 
+// registerListener gives a new listener the current hosts and adds it to the listeners of the cluster's events. It's
+// only called by the goroutine of `stayConnected()`.
+func (c *Cluster) registerListener(newListener ClusterListener) {
+	for _, listener := range c.listeners {
+		if newListener == listener {
+			continue
+		}
+	}
+	newListener.OnEvent(&BootstrapEvent{c.hosts})
+	c.listeners = append(c.listeners, newListener)
+}
+
 func (c *Cluster) setOutageTime(t time.Time) {
 	c.outageMu.Lock()
 	c.outageTime = t
@@ -437,6 +449,9 @@ func (c *Cluster) stayConnected() {
 						reconnectPolicy.Reset()
 					}
 					pendingConnect = false
+				case newListener := <-c.addListener:
+					// Sessions are created while the control connection is down too, they start from the last known hosts
+					c.registerListener(newListener)
 				}
 			}
 		} else {
@@ -449,13 +464,7 @@ func (c *Cluster) stayConnected() {
 				c.setOutageTime(time.Now())
 				c.controlConn = nil
 			case newListener := <-c.addListener:
-				for _, listener := range c.listeners {
-					if newListener == listener {
-						continue
-					}
-				}
-				newListener.OnEvent(&BootstrapEvent{c.hosts})
-				c.listeners = append(c.listeners, newListener)
+				c.registerListener(newListener)
 			case <-refreshTimer.C:
 				c.refreshHosts()
 				pendingRefresh = false
